@@ -1285,7 +1285,12 @@ func (x *Exec) pureCall(st *State, fi *FuncInfo, args []*Term, call *ast.CallExp
 	if x.specRec[fi.Obj] < limit && !x.unfolded[key] && !app.Bound {
 		x.unfolded[key] = true
 		x.specRec[fi.Obj]++
+		// the unfolding is recorded as an axiom (it is used by every obligation of
+		// the unit), so it must not be simplified with the facts of the path on
+		// which the application happens to be met first: the body is evaluated
+		// under an empty path condition
 		tmp := st.clone()
+		tmp.pc = nil
 		body := x.inlineCall(tmp, fi, recv, rest, call)
 		x.specRec[fi.Obj]--
 		x.axiom(Eq(app, body[0]))
